@@ -3,6 +3,7 @@ package props
 import (
 	"errors"
 	"fmt"
+	"io"
 	"math/rand"
 	"sort"
 	"strconv"
@@ -843,7 +844,7 @@ func init() {
 		ChunkSize:    2,
 		ChildTimeout: 600,
 		Parallel:     10,
-		Rule:         "five scenarios by case number. (windows) every pair (AtLeastOnceMax, ExactlyOnceMax) from {0,1,2,3,7,16383,16384,-1,16385,100000}^2 is drawn in turn: both windows are filled against a silent broker, exactly the normalised maximum must be accepted, the next two publishes must return ErrMax at once (goroutine + structural wedge detection) without a Persistence operation, the other level stays independent; after the broker answers, capacity is back and a refilled window hits the same limit. (concurrent) with one slot of a window of 1-3 free, 2-6 goroutines publish at once while the first of them is held inside Persistence.Save: exactly one is accepted, the others return ErrMax, none blocks. (history) 16,384+N publishes per level (thorough: up to 70,000, four wraps) from one goroutine per level while the broker withholds and releases acknowledgements so that the in-flight window keeps changing (1..64, or the maximum itself), optionally with injected Save failures and denied publishes in between; every ErrMax must coincide with a full window. (unordered) k (quick 40-512, thorough 512) subscribe/unsubscribe requests open at once, requests beyond the slot limit, a third abandoned by quit and replaced, answers released late; then one request kept open while 8,200 others run so that the identifier counter meets it; and requests canceled during a pending reconnect, others abandoned with the answer owed, new ones after them (no identifier goes out again while the broker owes an answer under it). (restart) C02's stop-point enumeration restricted to stop points whose pending range lies across the 14-bit wrap, two generations. Oracles: identifiers on the wire inside the range of their kind; an identifier is given to another message only after the record of the previous holder was removed (store and wire trace); no two subscribe/unsubscribe requests in flight share an identifier (wire write to call return); accepted minus finally acknowledged never exceeds the normalised maximum (final acknowledgements counted when handed to the client's Read). Non-trivial: a limit probe, an identifier wrap, or a counter round; distinct by configuration and scenario parameters.",
+		Rule:         "seven scenarios by case number. (windows) every pair (AtLeastOnceMax, ExactlyOnceMax) from {0,1,2,3,7,16383,16384,-1,16385,100000}^2 is drawn in turn: both windows are filled against a silent broker, exactly the normalised maximum must be accepted, the next two publishes must return ErrMax at once (goroutine + structural wedge detection) without a Persistence operation, the other level stays independent; after the broker answers, capacity is back and a refilled window hits the same limit. (concurrent) with one slot of a window of 1-3 free, 2-6 goroutines publish at once while the first of them is held inside Persistence.Save: exactly one is accepted, the others return ErrMax, none blocks. (history) 16,384+N publishes per level (thorough: up to 70,000, four wraps) from one goroutine per level while the broker withholds and releases acknowledgements so that the in-flight window keeps changing (1..64, or the maximum itself), optionally with injected Save failures and denied publishes in between; every ErrMax must coincide with a full window. (unordered) k (quick 40-512, thorough 512) subscribe/unsubscribe requests open at once, requests beyond the slot limit, a third abandoned by quit and replaced, answers released late; then one request kept open while 8,200 others run so that the identifier counter meets it; and requests canceled during a pending reconnect, others abandoned with the answer owed, new ones after them (no identifier goes out again while the broker owes an answer under it). (parked) a Subscribe takes its identifier and waits for the write lock behind a writer stuck in Write while the connection goes; it is written on the next connection, and no later request goes out under its identifier while the broker owes the answer. (other maximum) a session with 1-3 transfers per stage pending is adopted with every maximum around the pending counts: refused at once when a level holds more, adopted otherwise, never blocking. (restart) C02's stop-point enumeration restricted to stop points whose pending range lies across the 14-bit wrap, two generations. Oracles: identifiers on the wire inside the range of their kind; an identifier is given to another message only after the record of the previous holder was removed (store and wire trace); no two subscribe/unsubscribe requests in flight share an identifier (wire write to call return); accepted minus finally acknowledged never exceeds the normalised maximum (final acknowledgements counted when handed to the client's Read). Non-trivial: a limit probe, an identifier wrap, or a counter round; distinct by configuration and scenario parameters.",
 		Assumptions: []string{
 			"in-flight is counted from API returns and bytes handed to Read, which never exceeds the client's own count",
 			"the broker answers in order per acknowledgement type; the long-open subscribe is answered by hand",
@@ -879,6 +880,10 @@ func init() {
 				}
 				c17History(c, n, m1, m2, c.Rng.Intn(2) == 0)
 			case 2:
+				if c.Case%16 == 14 {
+					c17ParkedAcrossLoss(c)
+					return
+				}
 				if c.Case%8 == 6 {
 					// identifiers across a canceled and an abandoned request around a reconnect
 					c11PendingConnect(c, 3)
@@ -890,6 +895,10 @@ func init() {
 				}
 				c17Unordered(c, k, c.Case%8 == 2 || thorough)
 			default:
+				if c.Case/4%4 == 3 {
+					c17AdoptOtherMax(c)
+					return
+				}
 				c17Restart(c)
 			}
 		},
@@ -999,4 +1008,214 @@ func c17Concurrent(c *run.Ctx, level, max, k int) {
 	}
 	c.Trigger(fmt.Sprintf("concurrent|level=%d|max=%d|k=%d", level, max, k))
 	c.Sample(map[string]any{"scenario": "concurrent publishers at the limit", "config": cfg, "publishers": k, "accepted": accepted, "refused": refused})
+}
+
+// c17AdoptOtherMax restarts a session that has transfers of both stages
+// pending with every maximum around the pending counts: AdoptSession refuses
+// (an error, at once) when a level holds more than the new maximum and adopts
+// otherwise; it never blocks.
+func c17AdoptOtherMax(c *run.Ctx) {
+	n1, nr, n2 := 1+c.Rng.Intn(3), 1+c.Rng.Intn(3), 1+c.Rng.Intn(3)
+	base := c16Base(c, n1, nr, n2, 0, false)
+	if base == nil {
+		return
+	}
+	pend1, pend2 := 0, 0
+	for k := range base.content {
+		switch {
+		case k >= 0x8000 && k < 0xc000:
+			pend1++
+		case k >= 0xc000 && k <= 0xffff:
+			pend2++
+		}
+	}
+	try := func(m1, m2 int) bool {
+		w := sim.NewWorld(c.Rng.Int63())
+		defer w.Shutdown()
+		sim.InstallHooks(w)
+		w.Store.Plant(base.content)
+		cfg := mqtt.Config{Dialer: w.Dialer(), PauseTimeout: time.Hour, AtLeastOnceMax: m1, ExactlyOnceMax: m2}
+		type res struct {
+			cl    *mqtt.Client
+			fatal error
+		}
+		done := make(chan res, 1)
+		go func() {
+			cl, _, fatal := mqtt.AdoptSession(w.Store, &cfg)
+			done <- res{cl, fatal}
+		}()
+		label := fmt.Sprintf("AdoptSession with AtLeastOnceMax=%d ExactlyOnceMax=%d on a session with %d at-least-once transfers and %d exactly-once ones (%d of them at the PUBREL stage) pending", m1, m2, pend1, pend2, nr)
+		var r res
+		select {
+		case r = <-done:
+		case <-time.After(sim.StepTimeout):
+			s1 := strings.Join(sim.MqttStacks(), "\n")
+			starved := sim.Starved(1500 * time.Millisecond)
+			s2 := strings.Join(sim.MqttStacks(), "\n")
+			select {
+			case r = <-done:
+			default:
+				if !starved && s1 == s2 && s1 != "" {
+					c.Violate("adoption-blocks", label+" neither adopts nor refuses", map[string]any{"stacks": s2})
+				} else {
+					c.Inconclusive("AdoptSession slow")
+				}
+				c.Spoiled()
+				return false
+			}
+		}
+		over := pend1 > effMax(m1) || pend2 > effMax(m2)
+		switch {
+		case over && r.fatal == nil:
+			c.Violate("accepted-beyond-maximum", label+" was adopted", nil)
+		case !over && r.fatal != nil:
+			c.Violate("refused-below-maximum", label+" was refused: "+r.fatal.Error(), nil)
+		}
+		if r.cl != nil {
+			r.cl.Close()
+			for i := 0; i < 3; i++ {
+				if _, _, err := r.cl.ReadSlices(); errors.Is(err, mqtt.ErrClosed) {
+					break
+				}
+			}
+		}
+		return true
+	}
+	n := 0
+	for _, m2 := range []int{0, 1, nr, n2, max(nr, n2), pend2 - 1, pend2, pend2 + 1, -1, 16385} {
+		if m2 < -1 {
+			continue
+		}
+		n++
+		if !try(-1, m2) {
+			return
+		}
+	}
+	for _, m1 := range []int{0, pend1 - 1, pend1, pend1 + 1} {
+		n++
+		if !try(m1, -1) {
+			return
+		}
+	}
+	c.Count("adoptions_with_other_maxima", n)
+	c.Trigger(fmt.Sprintf("adopt-other-max|pending=%d+%d(%d)", pend1, pend2, nr))
+}
+
+// c17ParkedAcrossLoss has a Subscribe take its identifier and then wait for
+// the write lock (another writer is stuck inside Write) while the connection
+// goes. The request is written on the next connection all the same; as long as
+// the broker owes the answer, no other request may go out under its identifier.
+func c17ParkedAcrossLoss(c *run.Ctx) {
+	ep := newEpisode(c)
+	w := ep.W
+	defer w.Shutdown()
+	ep.F.Off = true
+	if err := ep.Init(); err != nil {
+		c.Violate("init-failed", err.Error(), nil)
+		return
+	}
+	armed := true
+	w.Mu.Lock()
+	w.WritePlan = func(cn *sim.Conn, p []byte) sim.WriteDecision {
+		if armed && len(p) > 0 && p[0]>>4 == wire.PUBLISH && p[0]&6 == 0 {
+			armed = false
+			return sim.WriteDecision{Accept: 1 + w.Rng.Intn(max(len(p)-1, 1)), GateAfter: "writer"}
+		}
+		return sim.WriteDecision{Accept: -1}
+	}
+	w.Broker.AckPolicy = func(b *sim.Broker, cn *sim.Conn, p *wire.Packet, reply []byte) string {
+		if p.Type == wire.SUBSCRIBE || p.Type == wire.UNSUBSCRIBE {
+			return "hold"
+		}
+		return ""
+	}
+	w.Mu.Unlock()
+	d := ep.D
+	d.StartReader()
+	if !w.WaitUntil(sim.StepTimeout, func() bool { return w.PointCountLocked("connect.resent") > 0 && w.ReaderQuietLocked() }) {
+		c.Inconclusive("no connection")
+		c.Spoiled()
+		return
+	}
+	cn := w.CurConn()
+	// some requests first, so that the counter is not at its start (or not)
+	warm := c.Rng.Intn(3)
+	var calls []*sim.Call
+	for i := 0; i < warm; i++ {
+		i := i
+		calls = append(calls, d.Go("Subscribe", func() error { return d.C.Subscribe(nil, fmt.Sprint("warm/", i)) }))
+	}
+	w.WaitUntil(sim.StepTimeout, func() bool { return len(w.Broker.Held) >= warm })
+	writer := d.Go("Publish", func() error { return d.C.Publish(nil, []byte("stuck in Write"), "w") })
+	if !w.WaitGateWaiting("writer", 1, sim.StepTimeout) {
+		c.Inconclusive("the writer never reached its gate")
+		c.Spoiled()
+		w.Open("writer")
+		return
+	}
+	parked := d.Go("Subscribe", func() error { return d.C.Subscribe(nil, "parked/across/the/loss") })
+	// it takes its identifier and queues for the write lock; nothing tells when,
+	// so it gets a little while (either order of things is legal)
+	w.WaitUntil(30*time.Millisecond, func() bool { return false })
+	cn.EndInbound(-1, io.EOF)
+	w.WaitUntil(sim.StepTimeout, func() bool { return cn.Closed() })
+	w.Open("writer")
+	if !w.WaitUntil(sim.StepTimeout, func() bool {
+		return parked.Returned() && writer.Returned() && len(w.Conns) >= 2 && w.ReaderQuietLocked()
+	}) {
+		wedged, report := w.Diagnose(1500 * time.Millisecond)
+		if wedged {
+			c.Violate("request-never-returns", "a Subscribe that waited for the write lock across a connection loss never returned", map[string]any{"report": report, "trace_tail": w.TraceTail(60)})
+		} else {
+			c.Inconclusive("parked request slow")
+		}
+		c.Spoiled()
+		return
+	}
+	// more requests on the new connection while the broker owes its answers
+	for i := 0; i < 3+c.Rng.Intn(4); i++ {
+		i := i
+		calls = append(calls, d.Go("Subscribe", func() error { return d.C.Subscribe(nil, fmt.Sprint("after/", i)) }))
+	}
+	w.WaitUntil(300*time.Millisecond, func() bool { return false })
+	// identifiers on the wire of the connections: none twice while unanswered
+	// (nothing was answered at all)
+	w.Mu.Lock()
+	type use struct {
+		conn   int
+		filter string
+	}
+	seen := map[uint16]use{}
+	for _, x := range w.Conns[1:] {
+		pk, _, _ := wire.ParseStream(x.Out, true)
+		for _, q := range pk {
+			if q.Type != wire.SUBSCRIBE || len(q.Filters) == 0 {
+				continue
+			}
+			if prev, dup := seen[q.ID]; dup && prev.filter != q.Filters[0] {
+				w.Mu.Unlock()
+				c.Violate("identifier-shared-in-flight/SUBSCRIBE", fmt.Sprintf("identifier %#04x went out for %q on connection %d while the broker still owed the answer to %q (connection %d), a request that had waited for the write lock across the connection loss", q.ID, q.Filters[0], x.Idx, prev.filter, prev.conn), map[string]any{"trace_tail": w.TraceTail(60)})
+				w.Mu.Lock()
+			}
+			seen[q.ID] = use{x.Idx, q.Filters[0]}
+		}
+	}
+	parkedWritten := false
+	for _, u := range seen {
+		if u.filter == "parked/across/the/loss" {
+			parkedWritten = true
+		}
+	}
+	w.Mu.Unlock()
+	if parkedWritten {
+		c.Count("requests_written_after_waiting_across_a_loss", 1)
+	}
+	c.Trigger(fmt.Sprintf("parked-across-loss|warm=%d|written=%v", warm, parkedWritten))
+	w.Broker.ReleaseHeld()
+	for _, cl := range calls {
+		w.WaitUntil(sim.StepTimeout, func() bool { return cl.Returned() })
+	}
+	if !d.CloseAndWait() {
+		c.Spoiled()
+	}
 }
